@@ -130,29 +130,57 @@ class Heap:
         return [self.a[n] for n in SPEC_HEAP]
 
 
+def _has_ite(t, depth=0):
+    if z3.is_app(t):
+        if t.decl().kind() in (z3.Z3_OP_ITE, z3.Z3_OP_OR, z3.Z3_OP_AND, z3.Z3_OP_NOT, z3.Z3_OP_EQ):
+            return True
+        return any(_has_ite(c, depth + 1) for c in t.children())
+    return False
+
+
+def forall(vs, body, pats):
+    ps = []
+    for p in pats:
+        p2 = z3.simplify(p)
+        if z3.is_app(p2) and not _has_ite(p2) and all(_mentions(p2, v) for v in vs):
+            ps.append(p2)
+    if len(ps) == len(pats) and ps:
+        try:
+            return z3.ForAll(vs, body, patterns=ps)
+        except z3.Z3Exception:
+            pass
+    return z3.ForAll(vs, body)
+
+
+def _mentions(t, v):
+    if t.eq(v):
+        return True
+    return any(_mentions(c, v) for c in t.children())
+
+
 def heap_wf_axioms(h):
     """well-formedness of a heap version (quantified over all objects), used for the entry heap"""
     r = z3.Int("r!")
     i = z3.Int("i!")
     k = z3.Const("k!", V)
     ax = []
-    ax.append(z3.ForAll([r], h.llen(r) >= 0, patterns=[h.llen(r)]))
-    ax.append(z3.ForAll([r], h.dlen(r) >= 0, patterns=[h.dlen(r)]))
+    ax.append(forall([r], h.llen(r) >= 0, [h.llen(r)]))
+    ax.append(forall([r], h.dlen(r) >= 0, [h.dlen(r)]))
     # enumeration <-> membership (bijection between [0,dlen) and the key set)
-    ax.append(z3.ForAll([r, k], z3.Implies(h.dhas(r, k),
+    ax.append(forall([r, k], z3.Implies(h.dhas(r, k),
                                            z3.And(h.a["didx"][r][k] >= 0, h.a["didx"][r][k] < h.dlen(r),
                                                   h.dkey(r, h.a["didx"][r][k]) == k)),
-                        patterns=[h.dhas(r, k)]))
-    ax.append(z3.ForAll([r, i], z3.Implies(z3.And(i >= 0, i < h.dlen(r)),
+                        [h.dhas(r, k)]))
+    ax.append(forall([r, i], z3.Implies(z3.And(i >= 0, i < h.dlen(r)),
                                            z3.And(h.dhas(r, h.dkey(r, i)), h.a["didx"][r][h.dkey(r, i)] == i)),
-                        patterns=[h.dkey(r, i)]))
+                        [h.dkey(r, i)]))
     # closed: every reference stored in the heap is allocated
-    ax.append(z3.ForAll([r, i], z3.Implies(z3.And(i >= 0, i < h.llen(r), is_ref(h.lget(r, i))),
-                                           V.rv(h.lget(r, i)) < h.alloc), patterns=[h.lget(r, i)]))
-    ax.append(z3.ForAll([r, k], z3.Implies(z3.And(h.dhas(r, k), is_ref(h.dget(r, k))),
-                                           V.rv(h.dget(r, k)) < h.alloc), patterns=[h.dget(r, k)]))
-    ax.append(z3.ForAll([r, k], z3.Implies(z3.And(h.dhas(r, k), is_ref(k)), V.rv(k) < h.alloc),
-                        patterns=[h.dhas(r, k)]))
+    ax.append(forall([r, i], z3.Implies(z3.And(i >= 0, i < h.llen(r), is_ref(h.lget(r, i))),
+                                           V.rv(h.lget(r, i)) < h.alloc), [h.lget(r, i)]))
+    ax.append(forall([r, k], z3.Implies(z3.And(h.dhas(r, k), is_ref(h.dget(r, k))),
+                                           V.rv(h.dget(r, k)) < h.alloc), [h.dget(r, k)]))
+    ax.append(forall([r, k], z3.Implies(z3.And(h.dhas(r, k), is_ref(k)), V.rv(k) < h.alloc),
+                        [h.dhas(r, k)]))
     return ax
 
 
@@ -161,12 +189,12 @@ def dict_wf_at(h, r):
     i = z3.Int("i!")
     k = z3.Const("k!", V)
     return [h.dlen(r) >= 0,
-            z3.ForAll([k], z3.Implies(h.dhas(r, k),
+            forall([k], z3.Implies(h.dhas(r, k),
                                       z3.And(h.a["didx"][r][k] >= 0, h.a["didx"][r][k] < h.dlen(r),
-                                             h.dkey(r, h.a["didx"][r][k]) == k)), patterns=[h.dhas(r, k)]),
-            z3.ForAll([i], z3.Implies(z3.And(i >= 0, i < h.dlen(r)),
+                                             h.dkey(r, h.a["didx"][r][k]) == k)), [h.dhas(r, k)]),
+            forall([i], z3.Implies(z3.And(i >= 0, i < h.dlen(r)),
                                       z3.And(h.dhas(r, h.dkey(r, i)), h.a["didx"][r][h.dkey(r, i)] == i)),
-                      patterns=[h.dkey(r, i)])]
+                      [h.dkey(r, i)])]
 
 
 # =============================================================================================
